@@ -50,7 +50,6 @@ class JsonResource(Resource):
 
     def save(self, output=None, options=None):
         self.options = options or {}
-        stream = self.open_out_stream(output)
         dict_list = []
         for root in self.contents:
             dict_list.append(self.to_dict(root))
@@ -58,8 +57,11 @@ class JsonResource(Resource):
             dict_list = dict_list[0]
 
         encoder = self.options.get(JsonOptions.ENCODER)
-        stream.write(json.dumps(dict_list, indent=self.indent, cls=encoder)
-                     .encode('utf-8'))
+        data = json.dumps(dict_list, indent=self.indent, cls=encoder) \
+                   .encode('utf-8')
+        # the target is only opened (and truncated) once the bytes exist
+        stream = self.open_out_stream(output)
+        stream.write(data)
 
         stream.flush()
         self.uri.close_stream()
